@@ -19,9 +19,15 @@ const (
 	hRel3Gate              // Release three times, wait, return, (Release again after return is a no-op by construction)
 	hHelperRel             // Release from a helper goroutine, wait, return
 	hNever                 // never release, never return
+	// server-stream handlers (the request is a correctable stream call)
+	hStream2Gate    // send two replies back to back, wait for the gate, return
+	hStream2RelGate // send two replies, Release, wait, return
+	hStreamSplit    // send a reply, wait for the gate, send another, return
 )
 
-var hbehNames = []string{"ret", "gate", "rel+gate", "rel3+gate", "helper-rel+gate", "never"}
+var hbehNames = []string{"ret", "gate", "rel+gate", "rel3+gate", "helper-rel+gate", "never", "stream2+gate", "stream2+rel+gate", "stream1+gate+stream1"}
+
+func (b hbeh) stream() bool { return b >= hStream2Gate }
 
 type relParams struct {
 	behs    []hbeh // behaviour of request i on connection 1
@@ -62,13 +68,30 @@ func relScenario(p relParams) func() {
 				w.Wait(g)
 			case hNever:
 				world.Block()
+			case hStream2Gate:
+				h.Send(0, 1)
+				h.Send(1, 1)
+				w.Wait(g)
+			case hStream2RelGate:
+				h.Send(0, 1)
+				h.Send(1, 1)
+				h.Release()
+				w.Wait(g)
+			case hStreamSplit:
+				h.Send(0, 1)
+				w.Wait(g)
+				h.Send(1, 1)
 			}
 			return world.Reply{Val: 1}
 		}
 		var conn1, conn2 []*world.Call
 		var gates []string
 		for _, b := range p.behs {
-			c := w.NewCall("QuorumCallAsync")
+			kind := "QuorumCallAsync"
+			if b.stream() {
+				kind = "CorrectableStream"
+			}
+			c := w.NewCall(kind)
 			behOf[c.Tok] = b
 			conn1 = append(conn1, c)
 			if b != hRet && b != hNever {
@@ -157,6 +180,19 @@ func relScenario(p relParams) func() {
 				blocked = true
 				continue
 			}
+			if b.stream() {
+				seen := map[int64]bool{}
+				for _, inv := range c.QF {
+					for _, v := range inv.Vals {
+						seen[v] = true
+					}
+				}
+				// the quorum function completes the call at the first reply; later replies may be dropped
+				if !seen[world.Stamp(c.Tok, 1, 0, 1)] {
+					fail("C04/reply-missing", key, "%s: the stream handler of t%d sent replies, the call saw %v", p.name(), c.Tok, c.QF)
+				}
+				continue
+			}
 			checkAsyncReply(w, c, p.name(), key)
 		}
 		for _, c := range conn2 {
@@ -206,12 +242,27 @@ func relInstances(tier string) []Instance {
 			}
 		}
 	}
+	// server-stream handlers in first or second position (their preliminary replies are sent from inside the handler)
+	for _, st := range []hbeh{hStream2Gate, hStream2RelGate, hStreamSplit} {
+		for _, other := range []hbeh{hRet, hGate, hRelGate} {
+			for _, rb := range []uint{0, 2} {
+				for _, behs := range [][]hbeh{{st, other, hRet}, {other, st, hRet}, {st, st, other}} {
+					bound := 1
+					if thorough(tier) {
+						bound = 2
+					}
+					p := relParams{behs: behs, conns: 1, recvBuf: rb}
+					out = append(out, Instance{Name: p.name(), Bound: bound, Root: relScenario(p)})
+				}
+			}
+		}
+	}
 	return out
 }
 
 func init() {
 	register(&Check{ID: "C04",
-		Rule:        "one server; connection 1 issues every triple of requests over 6 handler behaviours {return, gate-then-return, release+gate, release x3+gate, release from a helper goroutine+gate, never release}; optionally a second client connection with two plain requests; server receive buffer {0,2}; the script opens the gates in every order at quiescent points; all schedules within the deviation bound; oracle on the per-connection event log: no handler starts while an earlier one of its connection is unreleased, replies of released handlers reach their own call, a never-releasing handler blocks only its own connection; an outcome is (instance, gate order)",
+		Rule:        "one server; connection 1 issues every triple of requests over 6 handler behaviours {return, gate-then-return, release+gate, release x3+gate, release from a helper goroutine+gate, never release}; optionally a second client connection with two plain requests; plus triples that contain server-stream handlers {two replies back to back then gate, two replies + release + gate, reply + gate + reply} in first or second position; server receive buffer {0,2}; the script opens the gates in every order at quiescent points; all schedules within the deviation bound; oracle on the per-connection event log: no handler starts while an earlier one of its connection is unreleased, replies of released handlers reach their own call, a never-releasing handler blocks only its own connection; an outcome is (instance, gate order)",
 		Gen:         relInstances,
 		Assumptions: []string{"transport is the fakegrpc model; requests are issued as async quorum calls on a one-node configuration so that several can be outstanding"},
 	})
